@@ -69,6 +69,21 @@ fn small_tiles(rng: &mut Rng) -> indep::TileMap {
 	if rng.chance(1, 2) { let p = rng.bytes(9); for id in 20..26 { m.insert(indep::id_tile(id), p.clone()); } }
 	m
 }
+/// lookups worth making in a container built from `tiles`: every tile, and the corners of every
+/// 256-block's tile bounding box and of the full block (last slots of a tile index)
+fn coords_of(tiles: &indep::TileMap) -> Vec<(u8, u32, u32)> {
+	let mut v: Vec<(u8, u32, u32)> = tiles.keys().cloned().collect(); v.sort();
+	let mut groups: std::collections::BTreeMap<(u8, u32, u32), Vec<(u32, u32)>> = Default::default();
+	for (z, x, y) in tiles.keys() { groups.entry((*z, x >> 8, y >> 8)).or_default().push((*x, *y)); }
+	for ((z, bx, by), cs) in groups {
+		let (x0, x1, y0, y1) = (cs.iter().map(|c| c.0).min().unwrap(), cs.iter().map(|c| c.0).max().unwrap(), cs.iter().map(|c| c.1).min().unwrap(), cs.iter().map(|c| c.1).max().unwrap());
+		let lim = if z >= 8 { 255 } else { (1u32 << z) - 1 };
+		for c in [(x0, y0), (x1, y1), (x0, y1), (x1, y0), (bx * 256 + lim, by * 256 + lim), (bx * 256, by * 256)] { v.push((z, c.0, c.1)); }
+	}
+	let mut w = v.clone(); w.reverse(); v.extend(w);
+	v.truncate(120);
+	v
+}
 fn written_by_repo(rt: &tokio::runtime::Runtime, tiles: &indep::TileMap, container: &str, dir: &std::path::Path) -> Result<std::path::PathBuf> {
 	let p = if container == "dir" { dir.join("seed_dir") } else { dir.join(format!("seed.{container}")) };
 	if container == "dir" { let _ = std::fs::remove_dir_all(&p); std::fs::create_dir_all(&p)?; } else { let _ = std::fs::remove_file(&p); }
@@ -182,7 +197,7 @@ fn weird_tar(rng: &mut Rng) -> Vec<u8> {
 	b.into_inner().unwrap()
 }
 
-pub struct Case { pub bytes: Vec<u8>, pub how: String }
+pub struct Case { pub bytes: Vec<u8>, pub how: String, pub coords: Vec<(u8, u32, u32)> }
 
 /// the input of (seed, target, idx); containers: the bytes of the file to open (tar/mbtiles/dir are
 /// materialised by `execute`)
@@ -191,34 +206,36 @@ fn gen_case(target: &str, seed: u64, idx: u64, rt: &tokio::runtime::Runtime, dir
 	let rng = &mut rng;
 	match target {
 		"json" | "tilejson" => {
-			if idx % 16 == 5 { let d = [8usize, 64, 200, 512][(idx / 16 % 4) as usize]; return Case { bytes: format!("{}1{}", "[".repeat(d), "]".repeat(d)).into_bytes(), how: format!("nesting depth {d}") }; }
-			if idx % 16 == 6 { let d = [8usize, 64, 200][(idx / 16 % 3) as usize]; return Case { bytes: format!("{}1{}", "{\"k\":".repeat(d), "}".repeat(d)).into_bytes(), how: format!("object nesting depth {d}") }; }
-			if idx % 16 == 7 { return Case { bytes: { let n = rng.below(40) as usize; rng.bytes(n) }, how: "random bytes".into() }; }
-			let s = *rng.pick(&JSONS); if idx % 5 == 0 { Case { bytes: s.as_bytes().to_vec(), how: "valid".into() } } else { Case { bytes: mutate_text(rng, s), how: "mutated text".into() } }
+			if idx % 16 == 5 { let d = [8usize, 64, 200, 512][(idx / 16 % 4) as usize]; return Case { bytes: format!("{}1{}", "[".repeat(d), "]".repeat(d)).into_bytes(), how: format!("nesting depth {d}"), coords: vec![] }; }
+			if idx % 16 == 6 { let d = [8usize, 64, 200][(idx / 16 % 3) as usize]; return Case { bytes: format!("{}1{}", "{\"k\":".repeat(d), "}".repeat(d)).into_bytes(), how: format!("object nesting depth {d}"), coords: vec![] }; }
+			if idx % 16 == 7 { return Case { bytes: { let n = rng.below(40) as usize; rng.bytes(n) }, how: "random bytes".into(), coords: vec![] }; }
+			let s = *rng.pick(&JSONS); if idx % 5 == 0 { Case { bytes: s.as_bytes().to_vec(), how: "valid".into(), coords: vec![] } } else { Case { bytes: mutate_text(rng, s), how: "mutated text".into(), coords: vec![] } }
 		}
-		"csv" | "csvfile" => { let s = *rng.pick(&CSVS); if idx % 7 == 0 { Case { bytes: s.as_bytes().to_vec(), how: "valid".into() } } else if idx % 7 == 1 { Case { bytes: { let n = rng.below(30) as usize; rng.bytes(n) }, how: "random bytes".into() } } else { Case { bytes: mutate_text(rng, s), how: "mutated text".into() } } }
+		"csv" | "csvfile" => { let s = *rng.pick(&CSVS); if idx % 7 == 0 { Case { bytes: s.as_bytes().to_vec(), how: "valid".into(), coords: vec![] } } else if idx % 7 == 1 { Case { bytes: { let n = rng.below(30) as usize; rng.bytes(n) }, how: "random bytes".into(), coords: vec![] } } else { Case { bytes: mutate_text(rng, s), how: "mutated text".into(), coords: vec![] } } }
 		"vpl" => {
-			if idx % 16 == 5 { let d = [4usize, 32, 128][(idx / 16 % 3) as usize]; return Case { bytes: format!("{}from_container filename=mem{}", "from_overlayed [ ".repeat(d), " ]".repeat(d)).into_bytes(), how: format!("nesting depth {d}") }; }
-			let s = *rng.pick(&VPLS); if idx % 5 == 0 { Case { bytes: s.as_bytes().to_vec(), how: "valid".into() } } else { Case { bytes: mutate_text(rng, s), how: "mutated text".into() } }
+			if idx % 16 == 5 { let d = [4usize, 32, 128][(idx / 16 % 3) as usize]; return Case { bytes: format!("{}from_container filename=mem{}", "from_overlayed [ ".repeat(d), " ]".repeat(d)).into_bytes(), how: format!("nesting depth {d}"), coords: vec![] }; }
+			let s = *rng.pick(&VPLS); if idx % 5 == 0 { Case { bytes: s.as_bytes().to_vec(), how: "valid".into(), coords: vec![] } } else { Case { bytes: mutate_text(rng, s), how: "mutated text".into(), coords: vec![] } }
 		}
-		"mvt" => { let t = crate::mvt::gen_tile_pub(rng); let b = crate::mvt::enc_tile(&t); if idx % 6 == 0 { Case { bytes: b, how: "valid".into() } } else if idx % 6 == 1 { Case { bytes: { let n = rng.below(60) as usize; rng.bytes(n) }, how: "random bytes".into() } } else { Case { bytes: mutate_bytes(rng, b), how: "mutated".into() } } }
+		"mvt" => { let t = crate::mvt::gen_tile_pub(rng); let b = crate::mvt::enc_tile(&t); if idx % 6 == 0 { Case { bytes: b, how: "valid".into(), coords: vec![] } } else if idx % 6 == 1 { Case { bytes: { let n = rng.below(60) as usize; rng.bytes(n) }, how: "random bytes".into(), coords: vec![] } } else { Case { bytes: mutate_bytes(rng, b), how: "mutated".into(), coords: vec![] } } }
 		"versatiles" => {
 			let tiles = small_tiles(rng);
 			let valid = if rng.chance(1, 2) { indep::enc_versatiles(&tiles, 0x10, 0, b"{}", rng) } else { written_by_repo(rt, &tiles, "versatiles", dir).and_then(|p| Ok(std::fs::read(p)?)).unwrap_or_default() };
-			match idx % 4 { 0 => Case { bytes: valid, how: "valid".into() }, 1 => Case { bytes: mutate_bytes(rng, valid), how: "mutated file bytes".into() }, _ => match corrupt_versatiles_inner(rng, &valid) { Some(b) => Case { bytes: b, how: "mutated block/tile index behind the brotli layer".into() }, None => Case { bytes: mutate_bytes(rng, valid), how: "mutated file bytes".into() } } }
+			let coords = coords_of(&tiles);
+			match idx % 4 { 0 => Case { bytes: valid, how: "valid".into(), coords }, 1 => Case { bytes: mutate_bytes(rng, valid), how: "mutated file bytes".into(), coords }, _ => match corrupt_versatiles_inner(rng, &valid) { Some(b) => Case { bytes: b, how: "mutated block/tile index behind the brotli layer".into(), coords }, None => Case { bytes: mutate_bytes(rng, valid), how: "mutated file bytes".into(), coords } } }
 		}
 		"pmtiles" => {
 			match idx % 4 {
-				0 => Case { bytes: corrupt_pmtiles_dirs(rng), how: "hand-made directory".into() },
+				0 => Case { bytes: corrupt_pmtiles_dirs(rng), how: "hand-made directory".into(), coords: vec![] },
 				_ => { let tiles = small_tiles(rng); let valid = if rng.chance(2, 3) { indep::enc_pmtiles(&tiles, 2, 1, b"{}", rng).0 } else { written_by_repo(rt, &tiles, "pmtiles", dir).and_then(|p| Ok(std::fs::read(p)?)).unwrap_or_default() };
-					if idx % 4 == 1 { Case { bytes: valid, how: "valid".into() } } else { Case { bytes: mutate_bytes(rng, valid), how: "mutated file bytes".into() } } }
+					let coords = coords_of(&tiles);
+					if idx % 4 == 1 { Case { bytes: valid, how: "valid".into(), coords } } else { Case { bytes: mutate_bytes(rng, valid), how: "mutated file bytes".into(), coords } } }
 			}
 		}
 		"mbtiles" => { let p = dir.join("case.mbtiles");
-			if idx % 3 == 0 { let _ = weird_mbtiles(rng, &p); Case { bytes: std::fs::read(&p).unwrap_or_default(), how: "well-formed SQLite file with unusual content".into() } }
-			else { let tiles = small_tiles(rng); let _ = indep::enc_mbtiles(&p, &tiles, "png", rng); let b = std::fs::read(&p).unwrap_or_default(); if idx % 3 == 1 { Case { bytes: b, how: "valid".into() } } else { Case { bytes: mutate_bytes(rng, b), how: "mutated file bytes".into() } } } }
-		"tar" => { if idx % 3 == 0 { Case { bytes: weird_tar(rng), how: "well-formed tar with unusual member names".into() } } else { let tiles = small_tiles(rng); let b = indep::enc_tar(&tiles, ".png", b"{}", rng); if idx % 3 == 1 { Case { bytes: b, how: "valid".into() } } else { Case { bytes: mutate_bytes(rng, b), how: "mutated file bytes".into() } } } }
-		_ => Case { bytes: vec![(idx % 256) as u8, rng.next() as u8], how: "directory tree variant".into() },
+			if idx % 3 == 0 { let _ = weird_mbtiles(rng, &p); Case { bytes: std::fs::read(&p).unwrap_or_default(), how: "well-formed SQLite file with unusual content".into(), coords: vec![] } }
+			else { let tiles = small_tiles(rng); let _ = indep::enc_mbtiles(&p, &tiles, "png", rng); let b = std::fs::read(&p).unwrap_or_default(); if idx % 3 == 1 { Case { bytes: b, how: "valid".into(), coords: vec![] } } else { Case { bytes: mutate_bytes(rng, b), how: "mutated file bytes".into(), coords: vec![] } } } }
+		"tar" => { if idx % 3 == 0 { Case { bytes: weird_tar(rng), how: "well-formed tar with unusual member names".into(), coords: vec![] } } else { let tiles = small_tiles(rng); let b = indep::enc_tar(&tiles, ".png", b"{}", rng); if idx % 3 == 1 { Case { bytes: b, how: "valid".into(), coords: vec![] } } else { Case { bytes: mutate_bytes(rng, b), how: "mutated file bytes".into(), coords: vec![] } } } }
+		_ => Case { bytes: vec![(idx % 256) as u8, rng.next() as u8], how: "directory tree variant".into(), coords: vec![] },
 	}
 }
 
@@ -227,7 +244,7 @@ fn probes() -> Vec<TileCoord3> { let mut v = vec![]; for (z, x, y) in [(0u8, 0u3
 /// runs the decoder(s) of `target` on the case: "ok" / "err" (panics unwind to the caller)
 fn execute(target: &str, case: &Case, rt: &tokio::runtime::Runtime, dir: &std::path::Path) -> &'static str {
 	let b = &case.bytes;
-	let lookups = |r: &dyn TilesReaderTrait| { let _ = r.get_parameters(); let _ = r.get_tilejson(); for c in probes() { let _ = rt.block_on(r.get_tile_data(&c)); } };
+	let lookups = |r: &dyn TilesReaderTrait| { let _ = r.get_parameters(); let _ = r.get_tilejson(); for c in probes() { let _ = rt.block_on(r.get_tile_data(&c)); } for (z, x, y) in &case.coords { let _ = rt.block_on(r.get_tile_data(&TileCoord3 { x: *x, y: *y, z: *z })); } };
 	match target {
 		"json" => match std::str::from_utf8(b) { Ok(s) => if versatiles_core::json::parse_json_str(s).is_ok() { "ok" } else { "err" }, Err(_) => "err" },
 		"tilejson" => { let _ = versatiles_core::tilejson::TileJSON::try_from_blob_or_default(&Blob::from(b.clone())); "ok" }
